@@ -37,10 +37,12 @@ pub open spec fn n_ebpf() -> Seq<char> { "ebpf_cgroup.o"@ }
 pub open spec fn n_unit() -> Seq<char> { "azure-proxy-agent.service"@ }
 // system locations: /usr/sbin/azure-proxy-agent, /etc/azure/proxy-agent.json,
 // /usr/lib/azure-proxy-agent/ebpf_cgroup.o, /usr/lib/systemd/system/azure-proxy-agent.service
-pub open spec fn sys_exe() -> PathV { seq![root(), "usr"@, "sbin"@, n_exe()] }
+pub open spec fn dir_sbin() -> PathV { seq![root(), "usr"@, "sbin"@] }
+pub open spec fn dir_systemd() -> PathV { seq![root(), "usr"@, "lib"@, "systemd"@, "system"@] }
+pub open spec fn sys_exe() -> PathV { dir_sbin().push(n_exe()) }
 pub open spec fn sys_config() -> PathV { seq![root(), "etc"@, "azure"@, n_config()] }
 pub open spec fn sys_ebpf() -> PathV { seq![root(), "usr"@, "lib"@, "azure-proxy-agent"@, n_ebpf()] }
-pub open spec fn sys_unit() -> PathV { seq![root(), "usr"@, "lib"@, "systemd"@, "system"@, n_unit()] }
+pub open spec fn sys_unit() -> PathV { dir_systemd().push(n_unit()) }
 pub open spec fn is_sys(p: PathV) -> bool { p == sys_exe() || p == sys_config() || p == sys_ebpf() || p == sys_unit() }
 
 // <setup dir>: the directory of the running setup tool; arbitrary.
@@ -199,6 +201,7 @@ pub open spec fn remove_tree_post(o: World, n: World, d: PathV, ok: bool) -> boo
     &&& n.fault == (o.fault || (!ok && exists|p: PathV| is_under(d, p) && o.fs.dom().contains(p)))
     &&& n.tr == o.tr.push(Ev::RemoveTree(d))
     &&& (ok ==> n.fs == rmtree(o.fs, d))
+    &&& (!n.fault && !ok ==> n.fs == o.fs)
     &&& (forall|p: PathV| !is_under(d, p) ==> #[trigger] at(n.fs, p) == at(o.fs, p))
     &&& (forall|p: PathV| is_under(d, p) ==> #[trigger] at(n.fs, p) == at(o.fs, p) || at(n.fs, p) is None)
 }
@@ -210,6 +213,14 @@ pub open spec fn cmd_post(o: World, n: World, prog: Seq<char>, args: Seq<Seq<cha
     &&& (!ok ==> n.tr == o.tr)
 }
 pub open spec fn strs_view(a: Seq<&str>) -> Seq<Seq<char>> { Seq::new(a.len(), |i: int| a[i]@) }
+pub broadcast proof fn lemma_strs1(a: Seq<&str>)
+    requires a.len() == 1
+    ensures #[trigger] strs_view(a) == seq![a[0]@]
+{ assert(strs_view(a) =~= seq![a[0]@]); }
+pub broadcast proof fn lemma_strs2(a: Seq<&str>)
+    requires a.len() == 2
+    ensures #[trigger] strs_view(a) == seq![a[0]@, a[1]@]
+{ assert(strs_view(a) =~= seq![a[0]@, a[1]@]); }
 
 // ---- path arithmetic ------------------------------------------------------------------------------------------------
 // components of a path string: split at '/', empty pieces dropped, a leading '/' is the root component
@@ -367,4 +378,61 @@ pub proof fn lemma_src_under(d: PathV)
     ensures forall|c: Seq<char>| !is_sys(#[trigger] d.push(c))
 {
     assert forall|c: Seq<char>| !is_sys(#[trigger] d.push(c)) by { lemma_under_push(exe_dir(), d, c); }
+}
+
+// ---- helper contracts for the systemd wrappers (from the code) -----------------------------------------------------
+pub proof fn lemma_verbs()
+    ensures "stop"@.len() == 4, "start"@.len() == 5, "unmask"@.len() == 6, "enable"@.len() == 6, "disable"@.len() == 7,
+            "daemon-reload"@.len() == 13, "systemctl"@.len() == 9,
+            forall|v: Seq<char>| v.len() > 5 ==> !is_stop(#[trigger] systemctl(v)) && !is_start(systemctl(v)),
+            !is_stop(Ev::Cmd("systemctl"@, seq!["daemon-reload"@])), !is_start(Ev::Cmd("systemctl"@, seq!["daemon-reload"@])),
+{
+    reveal_strlit("stop"); reveal_strlit("start"); reveal_strlit("unmask"); reveal_strlit("enable"); reveal_strlit("disable");
+    reveal_strlit("daemon-reload"); reveal_strlit("systemctl");
+    assert forall|v: Seq<char>| v.len() > 5 implies !is_stop(#[trigger] systemctl(v)) && !is_start(systemctl(v)) by {
+        assert(systemctl(v)->Cmd_1[0] == v);
+        assert(systemctl("stop"@)->Cmd_1[0] == "stop"@);
+        assert(systemctl("start"@)->Cmd_1[0] == "start"@);
+    }
+    assert(seq!["daemon-reload"@].len() == 1);
+    assert(systemctl("stop"@)->Cmd_1.len() == 2);
+    assert(systemctl("start"@)->Cmd_1.len() == 2);
+}
+// systemctl unmask; daemon-reload; enable -- changes no file, neither stops nor starts the service
+pub open spec fn enable_post(o: World, n: World, ok: bool) -> bool {
+    &&& n.fs == o.fs
+    &&& (o.fault ==> n.fault)
+    &&& (!ok ==> n.fault)
+    &&& quiet_ext(o.tr, n.tr)
+    &&& (!n.fault ==> n.tr == o.tr.push(systemctl("unmask"@)).push(Ev::Cmd("systemctl"@, seq!["daemon-reload"@])).push(systemctl("enable"@)))
+}
+// (systemctl disable;) remove the unit file (; daemon-reload)
+pub open spec fn remove_unit_post(o: World, n: World, ok: bool) -> bool {
+    &&& (o.fault ==> n.fault)
+    &&& (!ok ==> n.fault)
+    &&& (!n.fault ==> n.fs =~= rm(o.fs, sys_unit()))
+    &&& (forall|q: PathV| q != sys_unit() ==> #[trigger] at(n.fs, q) == at(o.fs, q))
+    &&& quiet_ext(o.tr, n.tr)
+}
+pub open spec fn stop_and_delete_post(o: World, n: World, ok: bool) -> bool {
+    &&& (o.fault ==> n.fault)
+    &&& (!ok ==> n.fault)
+    &&& (!n.fault ==> n.fs =~= rm(o.fs, sys_unit()))
+    &&& (forall|q: PathV| q != sys_unit() ==> #[trigger] at(n.fs, q) == at(o.fs, q))
+    &&& (!n.fault ==> quiet_ext(o.tr.push(systemctl("stop"@)), n.tr))
+}
+
+// main.rs setup_service (on return; it exits the process when a step fails): unit file placed, service enabled, then started
+pub open spec fn setup_service_post(o: World, n: World, src: PathV) -> bool {
+    &&& (o.fault ==> n.fault)
+    &&& (!n.fault ==> n.fs =~= cp(o.fs, src, sys_unit()))
+    &&& (forall|q: PathV| q != sys_unit() ==> #[trigger] at(n.fs, q) == at(o.fs, q))
+    &&& (!n.fault ==> n.tr.len() > o.tr.len() && n.tr.last() == systemctl("start"@) && quiet_ext(o.tr, n.tr.drop_last()))
+}
+pub open spec fn delete_folder_post(o: World, n: World, d: PathV) -> bool {
+    &&& (o.fault ==> n.fault)
+    &&& (!n.fault ==> n.fs =~= rmtree(o.fs, d))
+    &&& (forall|p: PathV| !is_under(d, p) ==> #[trigger] at(n.fs, p) == at(o.fs, p))
+    &&& (forall|p: PathV| is_under(d, p) ==> #[trigger] at(n.fs, p) == at(o.fs, p) || at(n.fs, p) is None)
+    &&& n.tr == o.tr.push(Ev::RemoveTree(d))
 }
